@@ -181,7 +181,8 @@ class Session:
                 last, tl = n, time.time()
             elif time.time() - tl >= quiet:
                 return
-        raise Infra("trace never went quiet")
+        raise Infra("trace never went quiet for %.2fs within %.0fs; last events: %s" % (
+            quiet, timeout, json.dumps([(e.get("ev"), e.get("seq")) for e in self.trace()[-6:]])))
 
     # ------------------------------------------------------------ end
     def exited(self):
